@@ -41,7 +41,7 @@ BASE_MIX = {
     'list_all_node_ids': 2, 'get_all_nodes_by_class': 1, 'get_all_nodes_by_class_and_type': 1,
     'node_exists': 1, 'check_node_unique': 1, 'graph_exists': 1, 'get_stitch_nodes': 1, 'validate_graph': 1,
     'find_matching_nodes': 1, 'merge_nodes': 2, 'clone_graph': 2, 'delete_graph': 2, 'cast_graph': 1,
-    'import_text': 6, 'roundtrip': 3, 'new_importer': 0.6,
+    'import_text': 6, 'roundtrip': 3, 'new_importer': 0.6, 'delete_all_graphs': 0.25,
     'q_first': 2, 'q_two_hop': 2, 'q_shortest': 2, 'q_hops': 1, 'q_parent': 1, 'q_peers': 1, 'q_cps': 1,
 }
 PROP_BOOST = {
@@ -381,6 +381,8 @@ class W1World(World):
             n = self.pick_node(rng, g)
             cands = [k for k, v in sorted(m.nodes.get((g, n), {}).items()) if isinstance(v, str)]
             s.update(n=n, name=rng.choice(cands) if cands and rng.random() < 0.8 else 'Labels')
+        elif op == 'delete_all_graphs':
+            pass
         elif op == 'new_importer':
             s.update(logger=rng.choice([None, 'logger', 'logger']), adopt=rng.random() < 0.5)
         elif op in ('list_all_node_ids', 'graph_exists', 'get_stitch_nodes', 'validate_graph', 'cast_graph',
@@ -901,6 +903,17 @@ class W1World(World):
         g = s['g']
         return self._read(s, lambda b: self.pg(b, g).check_node_unique(label=s['label'], name=s['name']),
                           lambda: self.model.check_node_unique(g, s['label'], s['name']))
+
+    def do_delete_all_graphs(self, s):
+        gs = sorted(set(k[0] for k in self.model.nodes))
+        for g in gs:
+            self.touch(g)
+
+        def model():
+            for g in gs:
+                self.model.delete_graph(g)
+        o = self.three_way(s, lambda b: self.imp[b].delete_all_graphs(), model, True)
+        return set(gs), o
 
     def do_new_importer(self, s):
         """another session opens its own importer on the same store (with or without a logger): everything stored
